@@ -17,7 +17,8 @@ EXPLANATION = (
     'get_cell_value and evaluate agree on defined-name indirection and all read/write the cell object held '
     'by the cells map; evaluate stores its result in the cell it looked up; (C04.5) state kept on the evaluator '
     'across evaluations (the evaluation stack) is restored on every exit path, so a failed evaluation cannot '
-    'change the result of a later one.')
+    'change the result of a later one.'
+    ' (C04.2) also: nothing that depends on the evaluation is stored on a formula node (they live as long as the model); (C04.5) decided on witness models: failed and successful evaluations leave the evaluator as they found it.')
 NOT_DECIDED = 'equality of the values with those of a freshly compiled model'
 TRUSTED = ['receiver typing is origin-based over this package only (cells map subscripts, constructor calls)']
 
